@@ -10,7 +10,8 @@ use txtpp::{Config, Mode, Verbosity};
 
 pub const FILES: [&str; 4] = ["a", "b", "c", "d"];
 pub const POS: [(&str, usize); 4] = [("root", 0), ("middle", 1), ("leaf", 2), ("sibling", 3)];
-pub const KINDS: [&str; 14] = [
+pub const KINDS: [&str; 15] = [
+    "temp-target-is-a-directory",
     "command-killed-by-signal",
     "write-limit-on-output", "write-limit-on-temp",
     "tag-misuse", "command-exit-3", "missing-include", "include-a-directory", "source-invalid-utf8", "output-path-is-a-directory", "output-is-dev-full",
@@ -125,6 +126,7 @@ pub fn faulty_tree(kind: &str, pos: usize, mode: &Mode) -> Option<Tree> {
             }
             t.insert(outp.clone(), Node::Link("/dev/full".into()));
         }
+        "temp-target-is-a-directory" => append(&mut t, b"-TXTPP#temp adir\n-body\n"),
         "temp-in-missing-directory" => append(&mut t, b"-TXTPP#temp nodir/x.tmp\n-body\n"),
         "temp-parent-is-a-file" => append(&mut t, b"-TXTPP#temp plain.txt/x.tmp\n-body\n"),
         "verify-output-tampered" => {
@@ -235,7 +237,7 @@ pub fn run_c04(tier: &str) -> i32 {
     let rep = Report::new("C04", tier);
     let thorough = rep.thorough();
     rep.set("fault_kinds", json!(KINDS));
-    rep.set("bounds", json!("project a->b->c plus unrelated d; 14 fault kinds (incl. RLIMIT_FSIZE hit by one file's output / temp target, in-process) x 4 positions x the modes in which the kind is a fault x input selections {., root only, all by name} x ALL task completion orders; RLIMIT_FSIZE = every byte count from 0 to the largest generated file + 1 on the production binary (-j1, -j4; build and --needed)"));
+    rep.set("bounds", json!("project a->b->c plus unrelated d; 15 fault kinds (incl. RLIMIT_FSIZE hit by one file's output / temp target, in-process) x 4 positions x the modes in which the kind is a fault x input selections {., root only, all by name} x ALL task completion orders; RLIMIT_FSIZE = every byte count from 0 to the largest generated file + 1 on the production binary (-j1, -j4; build and --needed)"));
     rep.assume("faults are real OS-level faults (no injection hook); permission faults cannot be produced as root; /dev/full is used as an output only in Build mode");
     let mut jobs = vec![];
     let sels: Vec<Vec<&str>> = if thorough { vec![vec!["."], vec!["a.txt", "d.txt"], vec!["d.txt", "c.txt", "b.txt", "a.txt"]] } else { vec![vec!["."], vec!["a.txt", "d.txt"]] };
